@@ -20,6 +20,8 @@ def PyErr.toString : PyErr → String
 
 instance : ToString PyErr := ⟨PyErr.toString⟩
 
+deriving instance DecidableEq for Except
+
 /-- Bytes are modelled as natural numbers `< 256`; the bound is an invariant carried by the
     theorems that need it (this keeps `omega` usable everywhere). -/
 abbrev Bytes := List Nat
